@@ -27,6 +27,7 @@ type specEnv struct {
 	callee    *ssa.Function
 	pkgPath   string
 	ghost     map[string]string // ghost maps of a contract (name -> SMT function symbol)
+	entryHeld map[string][]string // when translating requires: locks stated to be held at entry
 }
 
 type sv struct {
